@@ -216,14 +216,38 @@ def precondition_class(o, pre):
 _G = {}
 
 
+def rebuild(m, how):
+    """The same list in a new container (constructor from a container, .copy(), copy.copy, extend of an empty one); the
+    old container then goes its own way, which must not show in the new one."""
+    import copy
+    cls = type(m)
+    if how % 4 == 0:
+        n = cls(m)
+    elif how % 4 == 1:
+        n = m.copy()
+    elif how % 4 == 2:
+        n = copy.copy(m)
+    else:
+        n = cls()
+        n.extend(m)
+    for k in list(dict.fromkeys(k for k, _ in list(m)))[:2]:
+        m.append(k, "!old")
+    if len(m):
+        m.pop()
+    return n
+
+
 def _replay_hist(job):
-    cname, hist = job
+    cname, hist = job[0], job[1]
+    rebuilt = len(job) > 2 and job[2]
     cls = _G["classes"][cname]
     table = _G["table"]
     m = cls()
     pre = []
     for stepno, st in enumerate(hist):
         o = st["o"]
+        if rebuilt and stepno:
+            m = rebuild(m, stepno)
         ret = apply_op(m, o)
         clause = None
         if ret != st["ret"]:
@@ -249,9 +273,9 @@ def _replay_hist(job):
                 if not all(eqs):
                     clause = ("eq", eqs, None)
         if clause:
-            return ("fail", {"config": cname, "locus": precondition_class(o, pre),
+            return ("fail", {"config": cname, "locus": precondition_class(o, pre) + ("/container-rebuilt-before" if rebuilt else ""),
                              "observed": clause[0]},
-                    {"cls": cname, "history": [s["o"] for s in hist[:stepno + 1]], "step": stepno},
+                    {"cls": cname, "history": [s["o"] for s in hist[:stepno + 1]], "step": stepno, "rebuilt_before_each_step": rebuilt},
                     {"clause": clause[0], "got": clause[1], "expected": clause[2]})
         pre = st["post"]
     return ("ok",)
@@ -292,6 +316,8 @@ def random_walk(cls, rng, nsteps, keys, vals):
             o["ps"] = [[rng.choice(keys), rng.choice(vals)] for _ in range(rng.randint(0, 3))]
             if o["form"] != "pairs":
                 o["ps"] = [list(p) for p in dict(map(tuple, o["ps"])).items()]
+        if rng.random() < 0.12:
+            m = rebuild(m, rng.randrange(4))       # not an event: the list is the same, only the object is new
         ret = apply_op(m, o)
         ob = observe(m, probe_k, probe_v)
         post = ob["list"]
@@ -350,12 +376,14 @@ def run(ctx, rep):
         rep.exhaustive["histories of depth %d (%s op set) x 4 classes" % (dd, subset)] = True
         hists += r.printed
     names = list(_G["classes"])
-    jobs = [(c, h) for h in hists for c in (names if ctx.thorough else names)]
+    jobs = [(c, h, False) for h in hists for c in names]
+    # the same histories on a container that is replaced, before every step, by a copy of itself (four mechanisms in turn)
+    jobs += [(names[i % 4], h, True) for i, h in enumerate(hists if ctx.thorough else hists[::2])]
     res = pool_map(_replay_hist, jobs)
-    for (cname, h), out in zip(jobs, res):
+    for (cname, h, rb), out in zip(jobs, res):
         nontriv = any(s["ret"]["t"] == "exc" for s in h) or any(
             len({p[0] for p in s["post"]}) < len(s["post"]) for s in h)
-        rep.case("replay", (cname, json.dumps([s["o"] for s in h])), nontriv)
+        rep.case("replay-rebuilt" if rb else "replay", (cname, json.dumps([s["o"] for s in h])), nontriv)
         if out[0] == "machinery":
             raise RuntimeError(out[1])
         if out[0] == "fail":
